@@ -309,8 +309,13 @@ func (c *Contracts) LoadContractFile(path, pkgPrefix string, trusted bool) error
 				if !strings.Contains(sub, "]") || strings.HasSuffix(sub, "]") {
 					sub += " true"
 				}
+			} else if strings.HasPrefix(sub, "entered_when") {
+				// loop#k entered_when [label] expr: whenever expr holds (in the state just before the loop) execution
+				// reaches the loop head — no early return or skipped branch in front of the traversal
+				kind = "entered_when"
+				sub = strings.TrimSpace(strings.TrimPrefix(sub, "entered_when"))
 			} else {
-				return fmt.Errorf("%s:%d: loop clause must be invariant, decreases or exhaustive", path, l.no)
+				return fmt.Errorf("%s:%d: loop clause must be invariant, decreases, exhaustive or entered_when", path, l.no)
 			}
 			cl, err := mkClause(kind, sub)
 			if err != nil {
@@ -321,8 +326,8 @@ func (c *Contracts) LoadContractFile(path, pkgPrefix string, trusted bool) error
 		case kw == "at":
 			// at call <callee>#k assert [label] expr
 			f := strings.Fields(rest)
-			if len(f) < 4 || f[0] != "call" || f[2] != "assert" {
-				return fmt.Errorf("%s:%d: expected 'at call <callee>#k assert ...'", path, l.no)
+			if len(f) < 4 || f[0] != "call" || (f[2] != "assert" && f[2] != "reached_when") {
+				return fmt.Errorf("%s:%d: expected 'at call <callee>#k assert|reached_when ...'", path, l.no)
 			}
 			callee := f[1]
 			k := -1
@@ -332,8 +337,8 @@ func (c *Contracts) LoadContractFile(path, pkgPrefix string, trusted bool) error
 				}
 				callee = callee[:i]
 			}
-			idx := strings.Index(rest, "assert")
-			cl, err := mkClause("assert", strings.TrimSpace(rest[idx+len("assert"):]))
+			idx := strings.Index(rest, f[2])
+			cl, err := mkClause(f[2], strings.TrimSpace(rest[idx+len(f[2]):]))
 			if err != nil {
 				return err
 			}
